@@ -640,3 +640,142 @@ Qed.
 
 Theorem produced_text_splits u : produced_wf u -> same_meaning u (split_spec (to_text u)).
 Proof. intros H. rewrite (split_to_text u H). exact (same_meaning_reread u H). Qed.
+
+(* ================================================================ 6. A3: parsing the text *)
+(* when the text read back has an IPv6 host, its host text is the canonical one: an IPv6address *)
+Lemma reread_ip6_text u : produced_wf u ->
+  forall h, hostText (reread_obj u) = Some h -> ip6 (reread_obj u) <> None -> matches Rfc3986.IPv6address h.
+Proof.
+  intros (_ & _ & Hh & _) h. unfold reread_obj, host_written, host_ok in *.
+  destruct (hostText u) as [hu|]; cbn [hostText ip6]; [|discriminate].
+  intros Eh H6. destruct Hh as [_ Hh]. destruct (ip6 u) as [b|]; [|contradiction].
+  injection Eh as <-. destruct (ip4 u), (ipFuture u); try contradiction.
+  destruct Hh as [Hl Hb]. exact (groups_text_ip6 b Hl Hb).
+Qed.
+
+Lemma path_text_spec_addr v : path_text (spec_addr v) = path_text v.
+Proof. destruct v. reflexivity. Qed.
+
+Theorem produced_reread u : produced_wf u -> exists v, parse (to_text u) = POk v /\ same_meaning u v.
+Proof.
+  intros Hwf. destruct (proj2 (parse_accepts_iff _) (produced_text_valid u Hwf)) as [v Hv].
+  exists v. split; [exact Hv|].
+  pose proof (parse_split _ _ Hv) as Hs. rewrite (split_to_text u Hwf) in Hs.
+  pose proof (same_meaning_reread u Hwf) as Hm. pose proof (reread_ip6_text u Hwf) as H6.
+  rewrite Hs in Hm, H6.
+  assert (host_of (spec_addr v) = host_of v) as EH.
+  { destruct (parse_wf _ _ Hv) as (_ & (_ & Hf) & _ & _).
+    destruct v as [sc ui ht i4 i6 fu po ps qu fr ab ow]. unfold spec_addr, host_of, is_lit in *.
+    cbn [scheme userInfo hostText ip4 ip6 ipFuture portText pathSegs query fragment absolutePath owner] in *.
+    destruct ht as [h|]; [|reflexivity]. destruct i6 as [b|]; [|reflexivity].
+    destruct Hf as [_ Hf]. destruct fu; [contradiction|]. destruct Hf as (_ & -> & _).
+    assert (matches Rfc3986.IPv6address h) as M by (apply H6; [reflexivity|discriminate]).
+    destruct (ip6_bytes_value h M) as [-> _]. reflexivity. }
+  unfold same_meaning in *. rewrite <- EH, <- (path_text_spec_addr v).
+  destruct v. exact Hm.
+Qed.
+
+(* ================================================================ 7. A4: the two ambiguity clauses are needed *)
+Lemma not_host_set u : is_host_set u = false ->
+  hostText u = None /\ ip4 u = None /\ ip6 u = None /\ ipFuture u = None.
+Proof.
+  unfold is_host_set. destruct (hostText u), (ip4 u), (ip6 u), (ipFuture u); cbn; intros H; try discriminate H.
+  repeat split.
+Qed.
+
+Lemma hostless_text u : is_host_set u = false ->
+  to_text u = opt_post (scheme u) [58] ++ path_text u ++ qf_part (query u) (fragment u).
+Proof.
+  intros H. destruct (not_host_set u H) as (E & E4 & E6 & Ef).
+  assert (host_ok u) as Hh by (unfold host_ok; rewrite E; auto).
+  rewrite (to_text_parts u Hh). unfold auth_text. rewrite E. reflexivity.
+Qed.
+
+Lemma sp_build_some sch a abs segs q f : hostText (sp_build sch (Some a) abs segs q f) <> None.
+Proof.
+  unfold sp_build. destruct (split_authority a) as [[[ui h] lit] port].
+  destruct lit; [destruct (head_is 118 h || head_is 86 h)|]; discriminate.
+Qed.
+
+(* a path text "//..." without authority is read back as an authority *)
+Lemma dslash_reads_authority u : opt_ok scheme_ok (scheme u) -> is_host_set u = false ->
+  head_is 47 (path_text u) && head_is 47 (tl (path_text u)) = true ->
+  hostText (split_spec (to_text u)) <> None.
+Proof.
+  intros Hsc Hn Hd. rewrite (hostless_text u Hn), split_spec_stages.
+  destruct (path_text u) as [|c1 [|c2 P]]; cbn [head_is tl] in Hd; rewrite ?andb_false_r in Hd; try discriminate Hd.
+  apply andb_true_iff in Hd. destruct Hd as [E1 E2].
+  apply N.eqb_eq in E1. apply N.eqb_eq in E2. subst c1 c2.
+  rewrite sp_scheme_opt; [|exact Hsc|].
+  2:{ intros _. exists [], ((47 :: 47 :: P) ++ qf_part (query u) (fragment u)). repeat split; reflexivity. }
+  cbv beta iota. unfold sp_auth. cbn [app]. rewrite !strip_char_cons.
+  destruct (span_until [47; 63; 35] _) as [a r']. cbv beta iota.
+  destruct (span_until [63; 35] r') as [path rest3]. destruct (sp_query rest3) as [qry rest4].
+  cbv beta iota zeta. destruct (sp_path (Some a) path) as [abs segs]. apply sp_build_some.
+Qed.
+
+Theorem dslash_necessary u : opt_ok scheme_ok (scheme u) -> is_host_set u = false ->
+  head_is 47 (path_text u) && head_is 47 (tl (path_text u)) = true ->
+  ~ same_meaning u (split_spec (to_text u))
+  /\ forall v, parse (to_text u) = POk v -> ~ same_meaning u v.
+Proof.
+  intros Hsc Hn Hd. pose proof (dslash_reads_authority u Hsc Hn Hd) as Hh.
+  destruct (not_host_set u Hn) as (E & _).
+  assert (forall w, hostText w <> None -> ~ same_meaning u w) as Hne.
+  { intros w Hw (_ & _ & Hm & _). unfold host_of in Hm. rewrite E in Hm.
+    destruct (hostText w); [|contradiction]. destruct (ip6 w); discriminate Hm. }
+  split; [exact (Hne _ Hh)|].
+  intros v Hv. apply Hne. rewrite (parse_split _ _ Hv) in Hh. destruct v. exact Hh.
+Qed.
+
+(* a first segment "a:b" in a reference without scheme and authority is read back as a scheme (if
+   the text is accepted at all: "1:b" is no URI reference) *)
+Lemma colon_reads_scheme u : scheme u = None -> is_host_set u = false ->
+  Forall (text_ok is_pchar) (pathSegs u) ->
+  In 58 (fst (span_until [47] (path_text u))) ->
+  forall v, parse (to_text u) = POk v -> scheme v <> None.
+Proof.
+  intros Hsc Hn Hps Hc v Hv Hvs.
+  pose proof (hostless_text u Hn) as Et. rewrite Hsc in Et. cbn [opt_post app] in Et.
+  destruct (text_segs_ok u Hps) as [Hne HL]. rewrite path_text_join in *.
+  destruct (text_segs u) as [|sg r]; [contradiction|]. inversion HL as [|? ? Hsg Hr]; subst.
+  rewrite (first_segment sg r Hsg) in Hc. cbn [fst] in Hc. rewrite join_slash_cons, <- app_assoc in Et.
+  (* the text as the splitter sees it from u's side *)
+  assert (span_until [47; 63; 35] (to_text u) = (sg, slashed r ++ qf_part (query u) (fragment u))) as S1.
+  { rewrite Et. apply span_app; [|apply slashed_stops; apply qf_stops3].
+    destruct Hsg as [Hcl _]. revert Hcl. apply class_avoid. reflexivity. }
+  (* and from v's side *)
+  pose proof (parse_unparse _ _ Hv) as Eu.
+  destruct (parse_wf _ _ Hv) as ((_ & _ & _ & _ & Hvps & _) & (_ & Hf) & Hpa & _).
+  destruct sg as [|c0 sg']; [destruct Hc|].
+  assert (is_pchar c0 = true) as Hc0.
+  { destruct Hsg as [Hcl _]. cbn [forallb] in Hcl. apply andb_true_iff in Hcl. exact (proj1 Hcl). }
+  unfold unparse, scheme_part, authority_part, path_part, path_ok in *. rewrite Hvs in *.
+  cbn [opt_post app] in Eu. rewrite Et in Eu.
+  destruct (hostText v) as [hv|].
+  - cbn [app] in Eu. injection Eu as Eu _. subst c0. discriminate Hc0.
+  - cbn [is_some app] in Eu. destruct (absolutePath v).
+    + cbn [app] in Eu. injection Eu as Eu _. subst c0. discriminate Hc0.
+    + cbn [app] in Eu. destruct (pathSegs v) as [|g rv].
+      * cbn [join_slash app] in Eu. destruct (query v), (fragment v); cbn [opt_pre app] in Eu;
+          try discriminate Eu; injection Eu as Eu _; subst c0; discriminate Hc0.
+      * destruct Hpa as [_ Hg]. specialize (Hg eq_refl eq_refl).
+        inversion Hvps as [|? ? Hg1 Hrv]; subst.
+        rewrite join_slash_cons, <- app_assoc in Eu. fold (qf_part (query v) (fragment v)) in Eu.
+        assert (span_until [47; 63; 35] (to_text u) = (g, slashed rv ++ qf_part (query v) (fragment v))) as S2.
+        { rewrite Et. cbn [app] in Eu |- *. rewrite <- Eu. apply span_app; [|apply slashed_stops; apply qf_stops3].
+          destruct Hg1 as [Hcl _]. revert Hcl. apply class_avoid. reflexivity. }
+        rewrite S1 in S2. injection S2 as Eg _. apply Hg. rewrite <- Eg. exact Hc.
+Qed.
+
+Theorem colon_necessary u : scheme u = None -> is_host_set u = false ->
+  Forall (text_ok is_pchar) (pathSegs u) ->
+  In 58 (fst (span_until [47] (path_text u))) ->
+  ~ (matches Rfc3986.URI_reference (to_text u) /\ same_meaning u (split_spec (to_text u)))
+  /\ forall v, parse (to_text u) = POk v -> ~ same_meaning u v.
+Proof.
+  intros Hsc Hn Hps Hc. pose proof (colon_reads_scheme u Hsc Hn Hps Hc) as H. split.
+  - intros [M (Es & _)]. apply parse_accepts_iff in M. destruct M as [v Hv].
+    apply (H v Hv). rewrite (parse_split _ _ Hv) in Es. rewrite Hsc in Es. destruct v. symmetry. exact Es.
+  - intros v Hv (Es & _). apply (H v Hv). rewrite <- Es. exact Hsc.
+Qed.
